@@ -1290,7 +1290,6 @@ class NodeListComprehension:
         values = getCollectionValue(lst, self.what)
         for listValue in values:
             localEnv.put(self.identifier, listValue)
-            value = self.valueExpr.evaluate(localEnv)
             if self.conditionExpr:
                 condition = self.conditionExpr.evaluate(localEnv)
                 if not condition.isBoolean():
@@ -1300,10 +1299,9 @@ class NodeListComprehension:
                         f"but got {condition.type()}",
                         self.pos,
                     )
-                if condition.value:
-                    result.addItem(value)
-            else:
-                result.addItem(value)
+                if not condition.value:
+                    continue
+            result.addItem(self.valueExpr.evaluate(localEnv))
         return result
 
     def __repr__(self):
@@ -1373,7 +1371,6 @@ class NodeListComprehensionParallel:
             listValue2 = values2[i] if i < len(values2) else None
             localEnv.put(self.identifier1, listValue1)
             localEnv.put(self.identifier2, listValue2)
-            value = self.valueExpr.evaluate(localEnv)
             if self.conditionExpr:
                 condition = self.conditionExpr.evaluate(localEnv)
                 if not condition.isBoolean():
@@ -1383,10 +1380,9 @@ class NodeListComprehensionParallel:
                         f"got {condition.type()}",
                         self.pos,
                     )
-                if condition.value:
-                    result.addItem(value)
-            else:
-                result.addItem(value)
+                if not condition.value:
+                    continue
+            result.addItem(self.valueExpr.evaluate(localEnv))
         return result
 
     def __repr__(self):
@@ -1463,7 +1459,6 @@ class NodeListComprehensionProduct:
             localEnv.put(self.identifier1, listValue1)
             for listValue2 in values2:
                 localEnv.put(self.identifier2, listValue2)
-                value = self.valueExpr.evaluate(localEnv)
                 if self.conditionExpr:
                     condition = self.conditionExpr.evaluate(localEnv)
                     if not condition.isBoolean():
@@ -1473,10 +1468,9 @@ class NodeListComprehensionProduct:
                             f"but got {condition.type()}",
                             self.pos,
                         )
-                    if condition.value:
-                        result.addItem(value)
-                else:
-                    result.addItem(value)
+                    if not condition.value:
+                        continue
+                result.addItem(self.valueExpr.evaluate(localEnv))
         return result
 
     def __repr__(self):
@@ -1589,8 +1583,6 @@ class NodeMapComprehension:
         values = getCollectionValue(lst, self.what)
         for listValue in values:
             localEnv.put(self.identifier, listValue)
-            key = self.keyExpr.evaluate(localEnv)
-            value = self.valueExpr.evaluate(localEnv)
             if self.conditionExpr:
                 condition = self.conditionExpr.evaluate(localEnv)
                 if not condition.isBoolean():
@@ -1600,10 +1592,11 @@ class NodeMapComprehension:
                         f"but got {condition.type()}",
                         self.pos,
                     )
-                if condition.value:
-                    result.addItem(key, value)
-            else:
-                result.addItem(key, value)
+                if not condition.value:
+                    continue
+            key = self.keyExpr.evaluate(localEnv)
+            value = self.valueExpr.evaluate(localEnv)
+            result.addItem(key, value)
         return result
 
     def __repr__(self):
@@ -1948,7 +1941,6 @@ class NodeSetComprehension:
         values = getCollectionValue(lst, self.what)
         for listValue in values:
             localEnv.put(self.identifier, listValue)
-            value = self.valueExpr.evaluate(localEnv)
             if self.conditionExpr:
                 condition = self.conditionExpr.evaluate(localEnv)
                 if not condition.isBoolean():
@@ -1958,10 +1950,9 @@ class NodeSetComprehension:
                         + condition.type(),
                         self.pos,
                     )
-                if condition.value:
-                    result.addItem(value)
-            else:
-                result.addItem(value)
+                if not condition.value:
+                    continue
+            result.addItem(self.valueExpr.evaluate(localEnv))
         return result
 
     def __repr__(self):
@@ -2024,7 +2015,6 @@ class NodeSetComprehensionParallel:
             localEnv.put(
                 self.identifier2, values2[i] if i < len(values2) else NULL
             )
-            value = self.valueExpr.evaluate(localEnv)
             if self.conditionExpr:
                 condition = self.conditionExpr.evaluate(localEnv)
                 if not condition.isBoolean():
@@ -2034,10 +2024,9 @@ class NodeSetComprehensionParallel:
                         + condition.type(),
                         self.pos,
                     )
-                if condition.value:
-                    result.addItem(value)
-            else:
-                result.addItem(value)
+                if not condition.value:
+                    continue
+            result.addItem(self.valueExpr.evaluate(localEnv))
         return result
 
     def __repr__(self):
@@ -2108,7 +2097,6 @@ class NodeSetComprehensionProduct:
             localEnv.put(self.identifier1, value1)
             for value2 in values2:
                 localEnv.put(self.identifier2, value2)
-                value = self.valueExpr.evaluate(localEnv)
                 if self.conditionExpr:
                     condition = self.conditionExpr.evaluate(localEnv)
                     if not condition.isBoolean():
@@ -2118,10 +2106,9 @@ class NodeSetComprehensionProduct:
                             + condition.type(),
                             self.pos,
                         )
-                    if condition.value:
-                        result.addItem(value)
-                else:
-                    result.addItem(value)
+                    if not condition.value:
+                        continue
+                result.addItem(self.valueExpr.evaluate(localEnv))
         return result
 
     def __repr__(self):
